@@ -689,7 +689,7 @@ func VerifC15Drive(t *testing.T, em VerifC15Emitter, be *VerifC15Backend, n int,
 		if id >= c15Directed {
 			k = 2 + rng.Intn(be.MaxThreads-1)
 		}
-		r := &c15Run{be: be, em: em, rng: rng, timeout: 2 * time.Second}
+		r := &c15Run{be: be, em: em, rng: rng, timeout: 5 * time.Second}
 		r.ths = make([]*c15Thread, k)
 		for i := range r.ths {
 			r.ths[i] = &c15Thread{}
